@@ -161,6 +161,20 @@ fn build_grid() -> Vec<Leaf> {
     ];
     for (tn, t) in &targets {
         v.push(Leaf { name: name(format!("grid/assign/=/{}", tn)), stmt: Stmt::Assign { target: t.clone(), op: None, value: int(1) }, global_only: false, sema: false });
+        // plain assignment of every value form (the analyser supports these)
+        let values: Vec<(&str, Expr)> = vec![
+            ("id", id("k")),
+            ("id_int", id("b")),
+            ("indexed", Expr::Index(Box::new(id("m")), Index::List(vec![IndexItem::E(int(1))]))),
+            ("call", Expr::Call(s("f1"), vec![id("b"), id("c")])),
+            ("cast", Expr::Cast(Ty::plain("int"), Box::new(id("f")))),
+            ("neg", un(UnOp::Neg, int(5))),
+            ("bool", Expr::Bool(true)),
+            ("paren", Expr::Paren(Box::new(bin(BinOp::Add, id("b"), id("c"))))),
+        ];
+        for (vn, val) in values {
+            v.push(Leaf { name: name(format!("grid/assign_value/{}/{}", vn, tn)), stmt: Stmt::Assign { target: t.clone(), op: None, value: val }, global_only: false, sema: *tn != "idx_range" });
+        }
         for op in BINOPS {
             // the OpenQASM 3 compound assignment operators
             if matches!(op, BinOp::Add | BinOp::Sub | BinOp::Mul | BinOp::Div | BinOp::Rem | BinOp::Pow | BinOp::BitAnd | BinOp::BitOr | BinOp::BitXor | BinOp::Shl | BinOp::Shr) {
@@ -322,6 +336,32 @@ impl Context {
             GateBody => Stmt::Gate { name: format!("w{}", uniq), params: Some(vec![format!("th{}", uniq)]), qubits: vec![format!("y{}", uniq)], body: vec![inner] },
             DefBody => Stmt::Def { name: format!("w{}", uniq), params: vec![(Ty::plain("int"), format!("z{}", uniq))], ret: None, body: vec![inner, Stmt::Return(None)] },
         }
+    }
+}
+
+/// Insert the annotation line `ann` directly before `target` in the innermost *block* body that
+/// holds it; false if `target` only occurs as a single-statement body (or not at all).
+pub fn annotate_inner(st: &mut Stmt, target: &Stmt, ann: &str) -> bool {
+    fn in_list(v: &mut Vec<Stmt>, target: &Stmt, ann: &str) -> bool {
+        if let Some(i) = v.iter().position(|s| s == target) {
+            v.insert(i, Stmt::Annotation(ann.to_string()));
+            return true;
+        }
+        v.iter_mut().any(|s| annotate_inner(s, target, ann))
+    }
+    fn in_body(b: &mut Body, target: &Stmt, ann: &str) -> bool {
+        if b.block {
+            in_list(&mut b.stmts, target, ann)
+        } else {
+            b.stmts.iter_mut().any(|s| annotate_inner(s, target, ann))
+        }
+    }
+    match st {
+        Stmt::If { then, els, .. } => in_body(then, target, ann) || els.as_mut().map(|e| in_body(e, target, ann)).unwrap_or(false),
+        Stmt::While { body, .. } | Stmt::For { body, .. } => in_body(body, target, ann),
+        Stmt::Switch { cases, default, .. } => cases.iter_mut().any(|(_, b)| in_list(b, target, ann)) || default.as_mut().map(|d| in_list(d, target, ann)).unwrap_or(false),
+        Stmt::Gate { body, .. } | Stmt::Def { body, .. } => in_list(body, target, ann),
+        _ => false,
     }
 }
 
